@@ -688,8 +688,12 @@ static int32_t tls13ParseAndHandleAlert(ssl_t *ssl,
            data to parse. */
         return MATRIXSSL_ERROR;
     }
-    /* The client expects to find the alert data at the start of the buffer */
-    Memmove(*in, *in + TLS_REC_HDR_LEN, 2);
+    /* The caller expects to find the alert data at the start of the buffer.
+       The alert record need not be the first one there (ignored
+       ChangeCipherSpec records may precede it) and pb may be a separate
+       buffer: store the two octets that were parsed. */
+    (*in)[0] = alertVal[0];
+    (*in)[1] = alertVal[1];
 
     *len = 2;
 
